@@ -136,7 +136,7 @@ def numerics(ctx):
     I3, Z3 = np.eye(3), np.zeros((3, 3))
     Om = np.block([[-2 * K, I3], [-I3, Z3]])
     configs = [("adaptive", 8), ("adaptive", 5), ("fixed", 8), ("fixed", 6), ("fixed", 4)]
-    n = 10 if ctx.thorough() else 4
+    n = 30 if ctx.thorough() else 4
     for it in range(n):
         # every new (system, direction) pair makes numba recompile the integrator kernels: keep the number of distinct mu small
         mu = [0.0121505856, 0.3][it % 2] if ctx.thorough() else 0.0121505856
